@@ -14,7 +14,7 @@ from .world import World, mkscratch, git
 from xandikos.store.git import TreeGitStore  # noqa: E402
 from xandikos.icalendar import ICalendarFile  # noqa: E402
 
-METHODS = ["GET", "PROPFIND", "PUT", "POST", "DELETE", "MKCOL", "MKCALENDAR", "PROPPATCH", "MULTIGET"]
+METHODS = ["GET", "PROPFIND", "PUT", "POST", "DELETE", "MKCOL", "MKCALENDAR", "PROPPATCH", "MULTIGET", "SLUG"]
 
 ALLOW_PREFIXES = [sys.prefix, sys.base_prefix, "/repo", "/verif", "/usr", "/etc", "/proc", "/dev",
                   "/venv", "/root/.pyenv", "/lib", "/sys", "/opt", "/tmp",
@@ -152,6 +152,9 @@ def send(w, method, target):
     if method == "PROPPATCH":
         return w.raw("PROPPATCH", target, [("Content-Type", "text/xml")],
                      gamma.proppatch_body([("displayname", "renamed by the path test")]))
+    if method == "SLUG":
+        # the vector travels as the name hint of a POST to a normal calendar (Slug, RFC 5023 9.7)
+        return w.raw("POST", "/cal/", [("Content-Type", "text/calendar"), ("Slug", target.lstrip("/"))], ics)
     if method == "MULTIGET":
         # the vector travels as an href inside the body of a report on a normal calendar
         return w.raw("REPORT", "/cal/", [("Content-Type", "text/xml"), ("Depth", "1")],
